@@ -30,11 +30,20 @@ func deliveredBody(x *Exchange) (ok bool, at time.Time) {
 	}
 	switch x.Fault.Kind {
 	case FNone, FRedirect, FBodyStall:
+	case FLyingCL:
+		// the whole body is sent and THEN the connection drops: a reader that
+		// stops exactly at the last byte holds the complete answer and never
+		// learns of the drop
+		if r.BodyEnd || r.BodyErr != "" {
+			return false, time.Time{}
+		}
 	default:
 		return false, time.Time{}
 	}
-	// the whole body must have reached the reader without error
-	if !r.BodyEnd || r.BodyErr != "" || r.BodyRead != r.BodyLen {
+	// the whole body must have reached the reader without error: it saw the
+	// end, or it took every byte and then closed the body (a reader that limits
+	// itself to exactly the body's length never asks for the end marker)
+	if r.BodyErr != "" || r.BodyRead != r.BodyLen || !(r.BodyEnd || r.Closed) {
 		return false, time.Time{}
 	}
 	if r.Redirected && x.Fault.Kind != FRedirect {
@@ -46,6 +55,8 @@ func deliveredBody(x *Exchange) (ok bool, at time.Time) {
 	at = r.TReturn
 	if r.BodyEnd {
 		at = r.TBodyEnd
+	} else if r.Closed {
+		at = r.TClosed
 	}
 	return true, at
 }
